@@ -137,6 +137,37 @@ def step_comment_and_end_tag(yielded, pre, self, token):
     return True
 
 
+def _doctype_text(name, pub, sys, q1, q2):
+    out = "<!DOCTYPE " + name
+    if pub:
+        out = out + " PUBLIC " + q1 + pub + q1
+    elif sys:
+        out = out + " SYSTEM"
+    if sys:
+        out = out + " " + q2 + sys + q2
+    return out + ">"
+
+
+def step_doctype(yielded, pre, self, token):
+    """a doctype is written so that it reads back as the same token: each identifier is delimited by a quote character
+    it does not contain -- or, if it contains both, an error is reported"""
+    if token["type"] != "Doctype":
+        return True
+    out = out_of(yielded)
+    name, pub, sys = token["name"], token["publicId"], token["systemId"]
+    if error_recorded(pre, self):
+        return True
+    for q1 in ("\"", "'"):
+        for q2 in ("\"", "'"):
+            if out == _doctype_text(name, pub, sys, q1, q2):
+                if pub and q1 in pub:
+                    return False
+                if sys and q2 in sys:
+                    return False
+                return True
+    return False
+
+
 def step_attribute_values(yielded, pre, self, token):
     """every attribute is written as  space name [= value]; the value has & (and < on request) escaped whether or
     not it is quoted, is quoted whenever the chosen mode requires it, and never contains its own quote character"""
@@ -187,13 +218,15 @@ class Serialize:
                               step=[clause("text_is_escaped_or_reported", step_text, "C08", "C10", "C07"),
                                     clause("raw_text_state", step_raw_text_state, "C08", "C07"),
                                     clause("comment_and_end_tag", step_comment_and_end_tag, "C08", "C07"),
-                                    clause("attribute_values", step_attribute_values, "C08", "C10", "C07")])}
+                                    clause("attribute_values", step_attribute_values, "C08", "C10", "C07"),
+                                    clause("doctype", step_doctype, "C08", "C07")])}
 
 
 step_text._bounded = BOUND
 step_raw_text_state._bounded = BOUND
 step_comment_and_end_tag._bounded = BOUND
 step_attribute_values._bounded = BOUND
+step_doctype._bounded = BOUND
 
 
 def _step_replay(inputs, ghost, clause):
